@@ -125,7 +125,8 @@ CHECKS = {
             'Deductive proof of the selection logic of mj_ray (inductive loop invariant over all geoms, IEEE comparisons, per-geom distance a '
             'ghost function): the result is -1 with geomid -1 exactly when no non-eliminated geom is hit, otherwise it is the distance of the '
             'returned geom, that geom is hit and not eliminated, no hit geom is nearer, ties go to the lowest index, NaN distances are never '
-            'selected; ray_quad returns the smallest non-negative real root or -1 iff none exists; ray_sphere hit points lie on the sphere; '
+            'selected; ray_quad returns the smallest non-negative real root or -1 iff none exists; ray_sphere hit points lie on the sphere; ray_plane hit '
+            'points lie in the plane, inside the rendered rectangle, only for rays facing the front side, and an unbounded plane is always hit from above; '
             'ray_eliminate applies the documented filter.',
             'Trusted: VC generator, clang, z3/cvc5. Assumed: per-geom ray routines are pure functions of the geom index; ngeom < 2^27; '
             'normal == NULL in mj_ray; quadratic/sphere over the reals. Not covered (listed): the other geom ray routines, mj_multiRay, BVH rays.',
